@@ -231,3 +231,31 @@ func (f *Func) writesToVar(n ast.Node, v types.Object, deep bool) []ast.Node {
 	}
 	return dedupNodes(out)
 }
+
+// LitArgOfGo returns the function literal started by `go func(){...}()` (nil if the go statement
+// starts a named function).
+func (f *Func) LitArgOfGo(gs *ast.GoStmt) *Func {
+	if l, ok := ast.Unparen(gs.Call.Fun).(*ast.FuncLit); ok {
+		return f.Root().LitFor(l)
+	}
+	return nil
+}
+
+// LitOfDefer returns the literal of `defer func(){...}()`.
+func (f *Func) LitOfDefer(ds *ast.DeferStmt) *Func {
+	if l, ok := ast.Unparen(ds.Call.Fun).(*ast.FuncLit); ok {
+		return f.Root().LitFor(l)
+	}
+	return nil
+}
+
+// ReachableFromAvoiding: vertices reachable from v without entering `avoid`.
+func (g *Graph) ReachableFromAvoiding(v, avoid int) []bool {
+	seen, _ := g.reach(g.succ[v], func(u int) bool { return u == avoid }, nil)
+	for _, s := range g.succ[v] {
+		if s == avoid {
+			seen[s] = false
+		}
+	}
+	return seen
+}
